@@ -11,6 +11,11 @@ from .common import rd, need, fn_body, strip_comments, AnchorError, HDR
 MUTATORS = r'(?:\bremove\s*\(|\brename\s*\(|\bcopy\s*\(|\bresize\s*\(|\blink\s*\(|\bunlink\s*\(|\bopen\s*\(|\bremoveRecursively\s*\()'
 
 
+def _ends_gz(p):
+    """a pattern literal (C++ source text) ending in an optional .gz group followed by an end anchor ($ or \\z)"""
+    return p.endswith('(\\\\.gz)?$') or p.endswith('(\\\\.gz)?\\\\z')
+
+
 def _flat(s):
     return re.sub(r'\s+', ' ', s)
 
@@ -116,14 +121,14 @@ def other_facts():
          'findRotatedFiles: victim key (date, index, path)')
     need(re.search(r'return key\(a\) < key\(b\);', fr), 'findRotatedFiles: ascending sort')
     pats = re.findall(r'QStringLiteral\("(\^[^"]*)"\)', fr)
-    if len(pats) != 2 or not all(p.endswith('(\\\\.gz)?$') for p in pats):
-        raise AnchorError('ANCHOR NOT FOUND: findRotatedFiles: both patterns end in (\\.gz)?$')
+    if len(pats) != 2 or not all(_ends_gz(p) for p in pats):
+        raise AnchorError('ANCHOR NOT FOUND: findRotatedFiles: both patterns end in (\\.gz)? and an end anchor')
     # findNextIndexForDate: 1 + max index over plain and .gz names
     fi = _flat(fn_body(s, 'int findNextIndexForDate'))
     pats = re.findall(r'QStringLiteral\("(\^[^"]*)"\)', fi)
     if len(pats) != 2:
         raise AnchorError('ANCHOR NOT FOUND: findNextIndexForDate: two patterns')
-    counts_gz = all(p.endswith('(\\\\.gz)?$') for p in pats)
+    counts_gz = all(_ends_gz(p) for p in pats)
     need(re.search(r'auto index = match\.captured\(1\)\.toInt\(\); if \(index > maxIndex\) \{ maxIndex = index; \}', fi),
          'findNextIndexForDate: maximum of the captured indices')
     mi = need(re.search(r'return maxIndex \+ (\d+);', fi), 'findNextIndexForDate: return maxIndex + 1')
